@@ -59,6 +59,7 @@ func (f *Frame) doCall(instr ssa.Instruction, cc *ssa.CallCommon, st *State, rt 
 		if c := e.ifaceContract(cc); c != nil {
 			return f.applyContract(c, nil, cc, append([]Val{recv}, args...), st, rt, pos, cc.Method.Name())
 		}
+		e.tick(st)
 		e.note("call through interface method %s without an interface contract: result havocked, no side effects assumed", cc.Method.FullName())
 		e.siteCall(f, st, cc.Method.Name(), append([]Val{recv}, args...), pos)
 		return e.havocVal(rt, "icall", st)
@@ -127,6 +128,7 @@ func (f *Frame) doCall(instr ssa.Instruction, cc *ssa.CallCommon, st *State, rt 
 		e.note("call to %s (no contract, no model): result havocked, no side effects assumed", full)
 	}
 	e.siteCall(f, st, funcKey(callee), args, pos)
+	e.tick(st)
 	e.unmodelled[full] = true
 	return e.havocVal(rt, "call."+callee.Name(), st)
 }
@@ -200,6 +202,7 @@ func funcValueName(v ssa.Value) string {
 
 func (e *Engine) funcValueCall(f *Frame, st *State, cc *ssa.CallCommon, fv Val, args []Val, rt types.Type, pos token.Pos) (Val, bool) {
 	e.siteCall(f, st, funcValueName(cc.Value), args, pos)
+	e.tick(st)
 	// an unknown function may write through its pointer arguments: those objects become arbitrary
 	for _, a := range args {
 		if a.T == nil {
@@ -215,20 +218,29 @@ func (e *Engine) funcValueCall(f *Frame, st *State, cc *ssa.CallCommon, fv Val, 
 	if fv.S == "" {
 		return Val{}, false
 	}
-	// deterministic application: result is an uninterpreted function of (func value, argument terms)
+	v, err := e.applyFuncValue(fv, args, rt, st)
+	if err != nil {
+		return Val{}, false
+	}
+	e.note("calls through function values are treated as deterministic and side-effect free (%s in %s)", funcValueName(cc.Value), funcKey(f.fn))
+	return v, true
+}
+
+// applyFuncValue: deterministic application - the result is an uninterpreted function of (func value, argument terms).
+func (e *Engine) applyFuncValue(fv Val, args []Val, rt types.Type, st *State) (Val, error) {
 	var sorts, terms []string
 	sorts = append(sorts, "Func")
 	terms = append(terms, fv.S)
 	for _, a := range args {
 		if a.S == "" {
-			return Val{}, false
+			return Val{}, fmt.Errorf("argument without a term")
 		}
 		sorts = append(sorts, e.valSort(a))
 		terms = append(terms, a.S)
 	}
 	if tup, ok := rt.(*types.Tuple); ok {
 		if tup.Len() == 0 {
-			return Val{T: rt}, true
+			return Val{T: rt}, nil
 		}
 		var vs []Val
 		for i := 0; i < tup.Len(); i++ {
@@ -238,14 +250,13 @@ func (e *Engine) funcValueCall(f *Frame, st *State, cc *ssa.CallCommon, fv Val, 
 			e.assumeTyping(st, v)
 			vs = append(vs, v)
 		}
-		return Val{T: rt, Tuple: vs}, true
+		return Val{T: rt, Tuple: vs}, nil
 	}
 	name := "apply." + mangle(strings.Join(sorts, "_")+"_"+e.sortOf(rt))
 	e.sc.Decl("fun:"+name, fmt.Sprintf("(declare-fun %s (%s) %s)", name, strings.Join(sorts, " "), e.sortOf(rt)))
 	v := Val{T: rt, S: e.define("ap", e.sortOf(rt), "("+name+" "+strings.Join(terms, " ")+")")}
 	e.assumeTyping(st, v)
-	e.note("calls through function values are treated as deterministic and side-effect free (%s in %s)", cc.Value.Name(), funcKey(f.fn))
-	return v, true
+	return v, nil
 }
 
 type modLoc struct {
@@ -450,6 +461,9 @@ func (f *Frame) applyContract(c *Contract, callee *ssa.Function, cc *ssa.CallCom
 		for _, ml := range locs {
 			e.havocLoc(st, ml)
 		}
+	}
+	if !c.Pure {
+		e.tick(st)
 	}
 	// results
 	var results []Val
@@ -808,6 +822,11 @@ func (e *Engine) globalFacts(st *State, g *ssa.Global, v Val) {
 				e.sc.declared["gfact:"+v.S] = true
 				e.sc.Line(fmt.Sprintf("(assert (not (= %s func.nil)))", v.S))
 			}
+		case *types.Pointer:
+			if !e.sc.declared["gfact:"+v.S] {
+				e.sc.declared["gfact:"+v.S] = true
+				e.sc.Line(fmt.Sprintf("(assert (not (= %s 0)))", v.S))
+			}
 		}
 	}
 }
@@ -856,7 +875,7 @@ func (e *Engine) globalInfo(g *ssa.Global) *gInfo {
 					gi.nonNil = true
 				}
 			}
-		case *ssa.MakeInterface, *ssa.MakeClosure, *ssa.Function:
+		case *ssa.MakeInterface, *ssa.MakeClosure, *ssa.Function, *ssa.Alloc:
 			gi.nonNil = true
 		}
 	}
